@@ -93,6 +93,8 @@ pub struct FaultScript {
     pub fail_get_block_nth: Option<(usize, bool)>,
     /// single failure of get_header
     pub fail_get_header_nth: Option<(usize, bool)>,
+    /// a flapping node: a second outage (same length) starts this many calls after the first one ended
+    pub second_outage_after: Option<usize>,
     // --- runtime
     pub in_outage: bool,
     pub failed_polls: usize,
@@ -100,7 +102,14 @@ pub struct FaultScript {
     pub get_header_calls: usize,
     pub outage_started_at_seq: Option<usize>,
     pub outage_ended_at_seq: Option<usize>,
+    /// calls that failed during the current outage
+    pub failed_calls: usize,
+    /// more than FLOOD_LIMIT calls failed within one outage: the caller retries without ever waiting. The outage is ended
+    /// there so that the run comes to an end (and memory stays bounded); the check reports it.
+    pub flooded: bool,
 }
+
+pub const FLOOD_LIMIT: usize = 3000;
 
 pub struct NodeState {
     pub blocks: HashMap<BlockHash, BlockEntry>,
@@ -208,6 +217,7 @@ impl NodeState {
                     self.fault.in_outage = true;
                     self.fault.outage_at_call = None;
                     self.fault.failed_polls = 0;
+                    self.fault.failed_calls = 0;
                     self.fault.outage_started_at_seq = Some(self.log.len());
                 }
             }
@@ -217,9 +227,19 @@ impl NodeState {
                 if self.fault.failed_polls >= self.fault.outage_polls {
                     self.fault.in_outage = false;
                     self.fault.outage_ended_at_seq = Some(self.log.len());
+                    if let Some(m) = self.fault.second_outage_after.take() {
+                        self.fault.outage_at_call = Some(self.calls + m);
+                    }
                     return false;
                 }
                 self.fault.failed_polls += 1;
+            }
+            self.fault.failed_calls += 1;
+            if self.fault.failed_calls > FLOOD_LIMIT {
+                self.fault.flooded = true;
+                self.fault.in_outage = false;
+                self.fault.outage_ended_at_seq = Some(self.log.len());
+                return false;
             }
             return true;
         }
